@@ -445,6 +445,28 @@ func rewardTokens(sc *Scenario, watch map[common.Address]bool, wesc map[escKey]b
 }
 
 // emitScenario: reset, parent state, watch lists, one block op answered by the real executor.
+var rcStats = map[string]int{}
+
+func msgClass(m string) string {
+	switch {
+	case m == "":
+		return "empty"
+	case strings.HasPrefix(m, "{\"balance\""):
+		return "balance-json"
+	case m == "{}":
+		return "empty-json"
+	case strings.HasPrefix(m, "not enough max"):
+		return "fee-short"
+	case strings.HasPrefix(m, "bad extraData"):
+		return "bad-extra"
+	case strings.HasPrefix(m, "nonce too"):
+		return strings.ReplaceAll(m, " ", "-")
+	case m == "Transfer Balance Failed":
+		return "transfer-failed"
+	}
+	return "other"
+}
+
 func emitScenario(out *hx.Out, r *hx.Rng, sc *Scenario) {
 	watch := map[common.Address]bool{common.FeeAccount: true, common.Address{}: true}
 	wesc := map[escKey]bool{}
@@ -491,6 +513,7 @@ func emitScenario(out *hx.Out, r *hx.Rng, sc *Scenario) {
 		}
 		for _, x := range o.receipts {
 			rc = append(rc, fmt.Sprintf("%s:%d:%s", hex.EncodeToString(x.TxHash.Bytes()), x.Status, hx.Hex([]byte(x.Msg))))
+			rcStats[fmt.Sprintf("receipt status=%d %s", x.Status, msgClass(x.Msg))]++
 		}
 		nr := commit(o.st, t)
 		if nr != o.root {
@@ -549,7 +572,7 @@ func amountStr(r *hx.Rng, balWei *big.Int, fee *big.Int) string {
 		}
 		return utility.BigIntToStr(v)
 	}
-	switch r.Intn(16) {
+	switch r.Intn(22) {
 	case 0:
 		return ""
 	case 1:
@@ -574,8 +597,10 @@ func amountStr(r *hx.Rng, balWei *big.Int, fee *big.Int) string {
 		return "0.5"
 	case 11:
 		return wei(new(big.Int).Div(avail, big.NewInt(3)))
-	default:
+	case 12:
 		return strconv.Itoa(r.Intn(12))
+	default:
+		return []string{"0.1", "0.25", "1", "2", "0.000000000000000001", "1.5", "3"}[r.Intn(7)]
 	}
 }
 
@@ -620,7 +645,7 @@ func genScenario(r *hx.Rng, i int, allowOpaque bool) *Scenario {
 	for k := 0; k < na; k++ {
 		a := poolAddrs[perm[k]]
 		var b *big.Int
-		switch r.Intn(8) {
+		switch r.Intn(12) {
 		case 0:
 			b = big.NewInt(0)
 		case 1:
@@ -730,7 +755,7 @@ func genScenario(r *hx.Rng, i int, allowOpaque bool) *Scenario {
 		sc.Txs = append(sc.Txs, x)
 	}
 	// escrow entries, some due now
-	ne := r.Pick(0, 0, 1, 2, 4)
+	ne := r.Pick(0, 0, 1, 2, 4, 6)
 	for k := 0; k < ne; k++ {
 		h := sc.Height
 		if r.Chance(1, 3) {
@@ -970,6 +995,14 @@ func hasSelfTarget(sc *Scenario) bool {
 // with GOMAXPROCS varied; returns the distinct fingerprints.
 func nfold(sc *Scenario, n int) map[string]int {
 	root, t := buildParent(sc)
+	hasContract := false
+	for _, x := range sc.Txs {
+		if x.Type == 200 || x.Type == 188 {
+			hasContract = true
+		}
+	}
+	orig := sc.Situation
+	defer func() { sc.Situation = orig }()
 	res := map[string]int{}
 	procs := []int{1, 2, 4, runtime.NumCPU()}
 	for i := 0; i < n; i++ {
@@ -978,6 +1011,11 @@ func nfold(sc *Scenario, n int) map[string]int {
 			applyFlags(sc, sc.GlobalHeights[i%len(sc.GlobalHeights)], true)
 		} else {
 			applyFlags(sc, sc.Height-1, false)
+		}
+		// a replica that meets the block on the fork path instead of the normal one
+		sc.Situation = orig
+		if orig == "" && !hasContract && i%4 == 3 {
+			sc.Situation = "fork"
 		}
 		if i%8 == 7 {
 			// a replica that re-built the same parent state from scratch (other insertion history)
@@ -1224,6 +1262,9 @@ func main() {
 			}
 			emitScenario(out, r, sc)
 		}
+	}
+	for k, v := range rcStats {
+		sizes[k] = v
 	}
 	sj, _ := json.Marshal(sizes)
 	st := out.StatsJSON()
